@@ -9,7 +9,7 @@ RULE = ('one case = one fresh OrSWotSet<1|2>, 1-12 inserts/deletes with pairwise
         'at the end the dump is compared with the Lean LWW oracle (printed only when the decidable Window hypothesis holds) and the cut-offs are probed; '
         'half of the cases also contain out-of-window stamps (gaps F, F+4, 2F) where only model/implementation agreement is checked; '
         'non-trivial = at least two operations on one key arriving in descending stamp order or an insert/delete conflict; distinct by hash')
-ASSUMPTIONS = ['FORGIVENESS_PERIOD = 3600 s (non-test build of datacake-crdt); stamps are valid clock outputs (fractional < 250, after the first 4 ms of 2023)',
+ASSUMPTIONS = ['FORGIVENESS_PERIOD = 3600 s (non-test build of datacake-crdt); stamps are valid clock outputs (fractional < 250); since fix D17 histories may start at the datacake epoch itself',
                'BTreeMap/HashMap are finite maps; iteration order is canonicalised (sorted) before comparison']
 TRUSTED_BASE = ['correspondence: dcharness (real OrSWotSet::insert_with_source/delete_with_source/will_apply/get/diff) vs dcdriver (Datacake.OrSwot model); '
                 'LWW oracle = Datacake.Lww.lww evaluated by dcdriver']
